@@ -21,7 +21,7 @@ RULE = ('Hypothesis-generated update sequences (<= 60 updates) over 1-3 services
         '0-2 client ids: counter / rate / aggregate-timer increments, gauge sets, percentile samples, every update '
         'through a freshly constructed Source (instance metric objects and the static class-level form); sample '
         'streams of 1-2500 finite floats for a single source, recorded at one instant or spread over 400-900 virtual seconds and aggregated right after the last sample; plus N calls through two real MessageDispatchers with different names (same methods, same endpoints) on stub '
-        'sinks that stamp endpoints. Oracle: dictionary model keyed by the field tuple. Non-trivial = at least two '
+        'sinks that stamp endpoints; one enumerated long-lived source per run (3e5 samples at once in the quick tier, 1e6 in thorough, then 1500 s at one sample per second with a report every 100 s). Oracle: dictionary model keyed by the field tuple. Non-trivial = at least two '
         'updates from equal-but-distinct Source objects to one metric. distinct = distinct non-trivial plans.')
 ASSUMPTIONS = [
     'gauges and percentile streams use one field tuple per (service, client id) key, as the property states ("a single source")',
@@ -68,6 +68,7 @@ def strategy(tier):
           st.tuples(st.integers(1, 2500), st.integers(0, 2 ** 16), st.sampled_from([[-1e3, 1e6], [10, 100], [5e5, 1e6]]),
                     st.sampled_from([0, 0, 400, 900])).map(lambda t: {'n': t[0], 'seed': t[1], 'range': t[2], 'span_s': t[3]})),
       'calls': st.lists(call, max_size=30),
+      'other_report_first': st.sampled_from([False, False, True]),
   })
 
 
@@ -132,7 +133,50 @@ def _close(a, b):
   return abs(a - b) <= 1e-9 * max(1.0, abs(a), abs(b))
 
 
+def enumerate_plans(tier, k, n):
+  # one long-lived, busy source per run (shard 0): hundreds of thousands of samples, then half an hour at one sample per second
+  if k == 0:
+    yield {'long_stream': 300000 if tier == 'quick' else 1000000, 'seed': 7}
+
+
+def _exec_long(plan):
+  import random as _r
+  from scales import varz as _varz
+  with World(seed=plan['seed']):
+    rnd = _r.Random(plan['seed'])
+    src = lambda: Source(method=fresh('mm'), service=fresh('busy'), endpoint=fresh('e:1'), client_id=None)
+    rec = TV(src()).t
+    for _ in range(plan['long_stream']):
+      rec(rnd.uniform(5.0, 9.0))
+    data = VarzReceiver.VARZ_DATA
+    reports = 0
+    for sec in range(1, 1501):
+      advance(1.0)
+      TV(src()).t(rnd.uniform(5.0, 9.0))
+      if sec % 100 == 0:
+        agg = VarzAggregator.Aggregate(data, VarzReceiver.VARZ_METRICS)
+        got = agg[METRIC['t']].get(('busy', None))
+        res = [v for s_, v in data[METRIC['t']].items() if s_.service == 'busy']
+        if len(res) != 1:
+          raise Violation(ID, 'series-split', 'one busy source produced %d series' % len(res))
+        retained = list(res[0].data)
+        lo, hi = min(retained), max(retained)
+        if got is None or len(got.total) != 6:
+          raise Violation(ID, 'percentile-shape', 'busy source after %d s: %r' % (sec, None if got is None else got.total))
+        for j, p_ in enumerate(got.total[1:]):
+          if not (lo - 1e-9 <= p_ <= hi + 1e-9):
+            raise Violation(ID, 'percentile-out-of-range', 'a source that has recorded %d samples and still records one per second: report after %d s has percentile entry %r outside its retained range [%r, %r]' % (
+                plan['long_stream'] + sec, sec, p_, lo, hi))
+        for j in range(1, 5):
+          if got.total[j + 1] < got.total[j] - 1e-9:
+            raise Violation(ID, 'percentile-decreasing', 'busy source: percentiles %r decrease' % (got.total[1:],))
+        reports += 1
+  return Outcome(nontrivial=['long-lived busy source'], classes=['long_stream'], counts={'long_stream_samples': plan['long_stream'] + 1500})
+
+
 def execute(plan):
+  if plan.get('long_stream'):
+    return _exec_long(plan)
   with World(seed=plan['seed']):
     data = VarzReceiver.VARZ_DATA
     model_sum = {}      # (metric, service, client) -> sum
@@ -176,6 +220,9 @@ def execute(plan):
         advance(span / 10.0)       # a source that keeps recording over minutes; aggregated right after its last sample
       TV(s_src()).t(x)
 
+    if plan.get('other_report_first'):
+      # another report over the same data, rolled up by (method, endpoint), is produced first
+      VarzAggregator.Aggregate(data, VarzReceiver.VARZ_METRICS, key_selector=lambda src_: (src_.method, src_.endpoint))
     agg = VarzAggregator.Aggregate(data, VarzReceiver.VARZ_METRICS)
 
     for k, fts in tuples_used.items():
